@@ -23,6 +23,7 @@ CFG = """SPECIFICATION Spec
 CONSTANT MaxLen = %d
 CONSTANT EMIT = %s
 CONSTANT FullInit = %s
+CONSTANT Cover = %s
 INVARIANT TypeOK
 INVARIANT Idempotent
 INVARIANT ForeignUntouched
@@ -249,8 +250,8 @@ def run():
     chk = Check("C18")
     common.use_stubs()
     # 1. exhaustive model check of the design
-    maxlen = 2 if chk.quick else 3
-    r = tlc.run("GitConfig", CFG % (maxlen, "FALSE", "TRUE" if not chk.quick else "FALSE"), workers=common.NCPU, timeout=3000,
+    maxlen = 1 if chk.quick else 2
+    r = tlc.run("GitConfig", CFG % (maxlen, "FALSE", "TRUE" if not chk.quick else "FALSE", "FALSE"), workers=common.NCPU, timeout=3000,
                 name="GitConfig", xmx="8g")
     if r.invariant_violated or r.error:
         raise tlc.TLCError("GitConfig: %s\n%s" % (r.error, r.out[-2000:]))
@@ -258,7 +259,7 @@ def run():
     # 2. behaviours for replay
     ntr = 160 if chk.quick else 2500
     depth = 3
-    rs = tlc.run("GitConfig", CFG % (depth, "TRUE", "FALSE"), workers=1, timeout=1200, name="GitConfig-sim",
+    rs = tlc.run("GitConfig", CFG % (depth, "TRUE", "FALSE", "FALSE"), workers=1, timeout=1200, name="GitConfig-sim",
                  simulate="num=%d" % (ntr * 2), depth=depth + 1, seed=common.seed() + 7, check=False)
     traces = []
     seen = set()
@@ -268,6 +269,30 @@ def run():
             seen.add(key)
             traces.append(t)
     traces = traces[:ntr]
+    # systematic single-command edges: one representative per (command, relevant configuration of its scope,
+    # default tools of the other scope)
+    re_ = tlc.run("GitConfig", CFG % (1, "TRUE", "FALSE", "TRUE"), workers=1, timeout=1200, name="GitConfig-edges", xmx="8g")
+    reps = {}
+    for t in re_.json_lines("TRACE"):
+        c = t["steps"][0]["cmd"]
+        x, y = t["init"][c["scope"]], t["init"]["global" if c["scope"] == "repo" else "repo"]
+        attrs = (x["afile"], x["aforeign"], x["adiff"], x["amerge"])
+        if c["tool"] == "difftool":
+            key = (x["gui"], x["dprompt"], y["gui"])
+        elif c["tool"] == "mergetool":
+            key = (x["mtool"], x["mprompt"], y["mtool"])
+        elif c["tool"] in ("diffdriver", "mergedriver"):
+            key = attrs
+        else:
+            key = (x["gui"], x["mtool"], attrs, y["gui"] == "other", y["mtool"] == "other")
+        reps.setdefault((json.dumps(c, sort_keys=True), key), t)
+    edges = [reps[k] for k in sorted(reps, key=repr)]
+    if chk.quick:
+        rr = common.rng("c18")
+        rr.shuffle(edges)
+        edges = edges[:420]
+    chk.notes["systematic_single_command_edges"] = len(edges)
+    traces += edges
     if len(traces) < 20:
         raise tlc.TLCError("too few simulated behaviours: %d\n%s" % (len(traces), rs.out[-1500:]))
     root = tlc.subdir("c18")
